@@ -146,3 +146,33 @@ def edges_acyclic(n, edges, act):
 
 def all_patterns(n):
     return itertools.product([False, True], repeat=n)
+
+
+# ------------------------------------------------------------------ semantic search on the REAL code
+
+
+def small_graphs(rng, count, nmax=5, allow_parallel=True):
+    """Deterministic family of small graphs: special shapes first, then random ones."""
+    out = [(1, []), (2, []), (2, [(0, 1)]), (2, [(0, 1), (1, 0)]), (3, [(0, 1), (1, 2)]), (3, [(0, 1), (1, 2), (2, 0)]),
+           (3, [(0, 1)]), (4, [(0, 1), (2, 3)]), (4, [(0, 1), (1, 2), (2, 3), (3, 0)]), (4, [(0, 1), (0, 2), (0, 3)]),
+           (4, [(0, 1), (1, 2), (2, 3), (3, 0), (0, 2)]), (5, [(0, 1), (1, 2), (2, 3), (3, 4)]),
+           (5, [(0, 1), (1, 2), (2, 0), (3, 4)]), (4, [(1, 0), (1, 2), (2, 1), (3, 2)]),
+           (5, [(0, 1), (1, 2), (2, 3), (3, 4), (4, 0)]), (5, [(0, 1), (0, 2), (0, 3), (0, 4), (1, 2), (3, 4)])]
+    if not allow_parallel:
+        out = [(n, es) for n, es in out if len({frozenset(e) for e in es}) == len(es)]
+    while len(out) < count:
+        out.append(rand_graph(rng, nmax, allow_parallel=allow_parallel))
+    return out[:count]
+
+
+def real_program(call_builder):
+    """call_builder(solver) -> callable.  Runs the real generator on a real Solver; returns
+    (decls, constraints, base, result) parsed, or raises."""
+    from cspuz import Solver
+    s = Solver()
+    call = call_builder(s)
+    base = len(s.variables)
+    cbase = len(s.constraints)
+    res = call()
+    decls, cs = exprio.parse_prog(exprio.pprog(s, base, cbase))
+    return decls, cs, base, res
